@@ -13,7 +13,7 @@ CONTEXTS = ["c1", "home"]
 PEOPLE = ["bob", "p1"]
 PROJECTS = ["j1", "zorg"]
 TAGS = {"areas": AREAS, "contexts": CONTEXTS, "people": PEOPLE, "projects": PROJECTS}
-PAGES = ["a", "ab", "a_b", "axb", "notes", "sub/a", "sub/b"]
+PAGES = ["a", "ab", "a_b", "axb", "notes", "sub/a", "sub/b", "todo", "jazz"]  # (stems ending in o / z: suffix vs character-set stripping)
 TEXT = ["foo", "Foo", "FOO", "bar", "100%", "a_b", "axb", "back\\slash", "don't", "e", "the", "mIxEd", "50%", "_x_",
         "percent%sign", "under_score", "a%b", "ab"]
 PROP_VALUES = {"k": ["5", "12", "abc", "007", "100"], "due": ["2024-01-02", "2024-03-01", "2023-12-31", "240105", "soon"],
